@@ -339,3 +339,57 @@ Proof.
   rewrite GenEqDerived.gen_bit_select_eq by (vm_compute; congruence). vm_compute. repeat split.
 Qed.
 Print Assumptions C01_bit_select_signed_offset_refuted.
+
+(* ---- amaranth/sim/_pyrtl.py _RHSValueCompiler: the Python source text returned for a value node, regenerated from the
+   f-string templates of the current source (translator unit "pyrtl_rhs", Gen/PyRtlRhsGen.v), equals Model/PyRTL.v.
+   `self_` / `rrhs_` : the meaning of the code compiled for the sub-values (any function), every operator, shape, raw
+   integer; no well-formedness hypothesis. *)
+From V.Proofs Require GenEqPyrtlRhs.
+From V.Gen Require PyRtlRhsGen.
+
+Theorem C01_translated_rtl_helpers v s l r :
+  PyRtlRhsGen.h_sign v s = py_sign v s /\ PyRtlRhsGen.h_zdiv l r = zdiv l r /\ PyRtlRhsGen.h_zmod l r = zmod l r.
+Proof. exact (conj (GenEqPyrtlRhs.gen_h_sign_eq v s) (conj (GenEqPyrtlRhs.gen_h_zdiv_eq l r) (GenEqPyrtlRhs.gen_h_zmod_eq l r))). Qed.
+Print Assumptions C01_translated_rtl_helpers.
+
+Theorem C01_translated_rtl_sign (self_ : expr -> Z) a : PyRtlRhsGen.g_sign self_ a = rsign (shape_of a) (self_ a).
+Proof. exact (GenEqPyrtlRhs.gen_sign_eq self_ a). Qed.
+Print Assumptions C01_translated_rtl_sign.
+
+Theorem C01_translated_rtl_op1 (self_ : expr -> Z) o a : PyRtlRhsGen.g_op1 self_ o a = rtl_op1 o (shape_of a) (self_ a).
+Proof. exact (GenEqPyrtlRhs.gen_op1_eq self_ o a). Qed.
+Print Assumptions C01_translated_rtl_op1.
+
+Theorem C01_translated_rtl_op2 (self_ : expr -> Z) o a b :
+  PyRtlRhsGen.g_op2 self_ o a b = rtl_op2 o (rsign (shape_of a) (self_ a)) (rsign (shape_of b) (self_ b)).
+Proof. exact (GenEqPyrtlRhs.gen_op2_eq self_ o a b). Qed.
+Print Assumptions C01_translated_rtl_op2.
+
+Theorem C01_translated_rtl_slice (self_ : expr -> Z) a lo hi :
+  PyRtlRhsGen.g_slice self_ a lo hi = rmask (hi - lo) (Z.shiftr (self_ a) lo).
+Proof. exact (GenEqPyrtlRhs.gen_slice_eq self_ a lo hi). Qed.
+Print Assumptions C01_translated_rtl_slice.
+
+Theorem C01_translated_rtl_part (self_ rrhs_ : expr -> Z) a off w st :
+  PyRtlRhsGen.g_part self_ rrhs_ a off w st =
+  rmask w (Z.shiftr (rsign (shape_of a) (self_ a)) (st * rmask (ewidth off) (rrhs_ off))).
+Proof. exact (GenEqPyrtlRhs.gen_part_eq self_ rrhs_ a off w st). Qed.
+Print Assumptions C01_translated_rtl_part.
+
+Theorem C01_translated_rtl_concat (self_ : expr -> Z) parts :
+  PyRtlRhsGen.g_concat self_ parts = rtl_cat (map (fun p => (self_ p, ewidth p)) parts) 0.
+Proof. exact (GenEqPyrtlRhs.gen_concat_eq self_ parts). Qed.
+Print Assumptions C01_translated_rtl_concat.
+
+(* the evaluator of C01_rtl_correct is a fixed point of the regenerated one-node compilers (every node kind except
+   SwitchValue, whose statement emission is not translated), in either mode of the compiler *)
+Theorem C01_translated_rtl_nodes mode en :
+  (forall v s, eval_rtl en (EConst v s) = PyRtlRhsGen.g_const v s) /\
+  (forall i s, eval_rtl en (ESig i s) = PyRtlRhsGen.g_signal mode en i s) /\
+  (forall o a, eval_rtl en (EOp1 o a) = PyRtlRhsGen.g_op1 (eval_rtl en) o a) /\
+  (forall o a b, eval_rtl en (EOp2 o a b) = PyRtlRhsGen.g_op2 (eval_rtl en) o a b) /\
+  (forall a lo hi, eval_rtl en (ESlice a lo hi) = PyRtlRhsGen.g_slice (eval_rtl en) a lo hi) /\
+  (forall a off w st, eval_rtl en (EPart a off w st) = PyRtlRhsGen.g_part (eval_rtl en) (eval_rtl en) a off w st) /\
+  (forall parts, eval_rtl en (ECat parts) = PyRtlRhsGen.g_concat (eval_rtl en) parts).
+Proof. exact (GenEqPyrtlRhs.gen_rhs_nodes_eq mode en). Qed.
+Print Assumptions C01_translated_rtl_nodes.
